@@ -19,7 +19,7 @@ func init() {
 func runC01(c *Ctx) {
 	const pkg = "chacha20poly1305"
 	n := c.asmGuardCheck("C01.dispatch", pkg)
-	c.check(n >= 2, "C01.dispatch", "assembly call sites", nil, fmt.Sprintf("%d guarded call sites", n), "seal/open assembly call sites not found")
+	c.check(n < 0 || n >= 2, "C01.dispatch", "assembly call sites", nil, fmt.Sprintf("%d guarded call sites", n), "seal/open assembly call sites not found")
 	c01Generic(c, pkg, true)
 	c01Generic(c, pkg, false)
 	c01X(c, pkg)
